@@ -183,18 +183,21 @@ def frameIds : List Bytes → List Int
     | none => []
     | some i => i :: frameIds fs
 
+/-- every reply that is an honest first reply to a request in `inflight` fires that request -/
+def okRoute (inflight : List (Nat × Int)) (os : List Ob) : Bool :=
+  (fires os).all fun x =>
+    match x.2.2 with
+    | .ok b => match echo b with
+      | some k' => !(inflight.contains (k', x.2.1)) || x.1 == k'
+      | none => true
+    | _ => true
+
 def rstep (m : RSt) : Ev × List Ob → Option RSt
   | (.bytesIn chunk, os) =>
     if isBad os then some m
     else
       let f := feed m.buf chunk
-      let okRoute := (fires os).all fun (k, i, r) =>
-        match r with
-        | .ok b => match echo b with
-          | some k' => !(m.inflight.contains (k', i)) || k == k'
-          | none => true
-        | _ => true
-      if !okRoute then none
+      if !okRoute m.inflight os then none
       else if os.contains .raiseUnderflow then some { inflight := [], buf := [] }
       else some { inflight := m.inflight.filter (fun p => !(frameIds f.frames).contains p.2), buf := f.buf }
   | (.connOk, os) => if isBad os then some m else some { inflight := track [] os, buf := [] }
